@@ -442,6 +442,9 @@ func (f *family) runBatch(peg string, cases []*gcase, vs []variant, bno int) {
 			}
 			if got.OK {
 				f.c.run.Count("retry_success_after_failed_attempts", 1)
+				if cf.v.noast {
+					break // no token list without an AST: the verdict of every attempt is the observable
+				}
 				if g, wt := tokStrings(got.Toks), refTokStrings(want.it.Toks); g != wt {
 					f.c.run.Violate("retry:"+id, fmt.Sprintf("Parse(rule %s) after %d failed attempts on the same instance: the token sequence is not the derivation's", names[k], k), w(map[string]any{"got_tokens": g, "ref_tokens": wt}))
 				}
